@@ -445,6 +445,14 @@ def check_hloc(case):
     gp = [p % n for p in gp]
     if gp != pos:
         raise Failure('positions', 'loc_to_iloc(%s) -> %s expected %s (labels %s)' % (short(key), gp, pos, short(cl)))
+    if mode == 'hloc' and len(case['sels']) == depth:
+        # one selector more than there are depths: no tuple of the index matches such a key
+        over = sf.HLoc[tuple(_real_sel(s) for s in case['sels']) + ('zz-beyond',)]
+        g2 = lib(ih.loc_to_iloc, over)
+        if not isinstance(g2, Raised):
+            raise Failure('no-raise', 'loc_to_iloc(%s) with %d selectors on %d depths -> %s' % (short(over.key), depth + 1, depth, short(g2)))
+        if not isinstance(g2.exc, LookupError):
+            raise Failure('raised:%s' % g2.cls, 'loc_to_iloc(%s) with a selector beyond the depth raised %r, not a lookup error' % (short(over.key), g2.exc), g2.where)
     want_labels = [cl[p] for p in pos]
     tree_ok = gen.is_tree_order([labels[p] for p in pos])
     target = case['target']
@@ -535,11 +543,13 @@ def check_auto_leaf(case):
         key = HLoc[names[q], i:stop]
         want = [offs[q] + p for p in range(i, lens[q] if stop is None else min(j, lens[q] - 1) + 1)]
         scalar = False
-        expect_absent = (not inside(q, i)) or (stop is not None and not inside(q, j))
+        # (a bound beyond the member: the tuples that match are those of the member between the bounds; none when the start is beyond)
+        expect_absent = not want
     elif form == 'label_list':
         ps = sorted({i, j})
-        key, want, scalar = HLoc[names[q], ps], [offs[q] + p for p in ps], False
-        expect_absent = any(not inside(q, p) for p in ps)
+        # (a list selector matches the labels of it that the member holds, as it does for members with explicit labels)
+        key, want, scalar = HLoc[names[q], ps], [offs[q] + p for p in ps if inside(q, p)], False
+        expect_absent = not want
     elif form == 'all_int':
         key, want, scalar = HLoc[:, i], [offs[k] + i for k in range(len(lens)) if inside(k, i)], False
         expect_absent = not want
@@ -584,14 +594,6 @@ def check_auto_leaf(case):
 
 
 def tag_auto_leaf(case, f):
-    # the leaf branch for indices without a label map adds the offset to whatever it is given: positions beyond the member
-    # (and slices running past it) are not checked against the member's length
-    lens, form = case['lens'], case['form']
-    top = (min(lens) if form.startswith('all') else lens[case['q']]) - 1
-    beyond = case['i'] > top or (case['j'] > top and form not in ('label_int', 'tuple', 'all_int') and not (form.endswith('slice') and case['open_stop']))
-    if beyond or (form.endswith('slice') and case['open_stop']):
-        if f.kind in ('no-raise', 'positions', 'value') or f.kind.startswith('raised:'):
-            return 'hierarchy-auto-integer-leaf-ignores-member-bounds'
     return None
 
 
